@@ -207,6 +207,7 @@ static Verdict run(const Case &c) { return c.c(0) == 1 ? run_flow(c) : run_prims
 int main(int argc, char **argv) {
     Args a = parse_args(argc, argv);
     if (!a.replay.empty()) return replay_case(a, run);
+    zygote_start(run);   // before any code under test runs in this process
     Current::install(a.failing);
     Evidence ev;
     ev.rule = "the harness owns clock and schedule; send_hello is a monitor wired like darwin-main.c (last-transmit timestamp by pointer). (1) sequences <= 150 of primitive operations: tick, advance 0..120000 ms "
